@@ -896,6 +896,15 @@ func TestC19ServerCancel(t *testing.T) {
 			if drain > 100*time.Millisecond {
 				vl.add("c19-server-slow", "cancel %v after %s: handler goroutines needed %v after cancel", at, kind, drain)
 			}
+			// whatever the handler of the REQUEST still sends while the server shuts down, it is not a refusal: the offer is held for
+			// this client and nobody answered for the address
+			if kind == "request" {
+				for _, f := range seg.Frames() {
+					if rp := parseReply(f.Payload); f.Kind == rsocks.KindIP && rp.ok && rp.typ == 6 && rp.msg.xid == offered.xid {
+						vl.add("c19-server-nak-at-shutdown", "cancel %v after the REQUEST for the held offer %s: the server answered with a NAK while shutting down", at, ipStr(y))
+					}
+				}
+			}
 		})
 	}
 	vl.write(t, "c19srvcancel", st.meta(n, "server cancelled 0-800 ms after an idle period / a DISCOVER / a REQUEST (inside the reply delay, inside the probes, after the reply)"))
